@@ -40,18 +40,18 @@ def run(c):
         {"init": (2, 0), "T": ["f2", "f2"], "R1": ["r1"], "R2": ["r2"]},
     ]
     batch, meta = [], []
-    progs = fixed + pipes.c24_programs(rnd, 4 if c.quick else 60)
+    progs = fixed + pipes.c24_programs(rnd, 4 if c.quick else 24)
     for pi, prog in enumerate(progs):
         k = 0
-        for ex in pipes.c24_explore(prog, "dfs", 2, 120 if c.quick else 4000, c.seed):
+        for ex in pipes.c24_explore(prog, "dfs", 2, 120 if c.quick else 1200, c.seed):
             k += 1
             v = ex.verdict
             batch.append(v)
             meta.append({"program": prog, "choices": ex.choices, "labels": ex.labels, "stuck": ex.stuck, "hang": ex.hang})
             c.case(key=("p%d" % pi, tuple(ex.choices)),
                    sample={"program": prog, "schedule": ex.labels[:40], "trace": v} if k == 5 and pi < 3 else None)
-    for pi, prog in enumerate(pipes.c24_programs(rnd, 6 if c.quick else 100)):
-        for ex in pipes.c24_explore(prog, "random", 0, 20 if c.quick else 100, c.seed * 1000 + pi):
+    for pi, prog in enumerate(pipes.c24_programs(rnd, 6 if c.quick else 50)):
+        for ex in pipes.c24_explore(prog, "random", 0, 20 if c.quick else 60, c.seed * 1000 + pi):
             batch.append(ex.verdict)
             meta.append({"program": prog, "choices": ex.choices, "labels": ex.labels, "stuck": ex.stuck, "hang": ex.hang})
             c.case(key=("r%d" % pi, tuple(ex.choices)))
